@@ -813,7 +813,7 @@ func init() {
 		Title: "Untyped constant expressions are exact and agree with Go's constant arithmetic",
 		Explanation: "Decided: P1 operator pass-through: BinaryExprUntyped / ShiftUntyped / UnaryExprUntyped hand go/constant the node's own operator (through tokenWithoutAssign) with the operands in order; untyped division truncates (QUO_ASSIGN) exactly when both operands are of Int or Rune kind; && / || compute the matching boolean operation; the compound-assignment token tables pair each X_ASSIGN with X; " +
 			"EX1 exactness: a constant.Value reaches an integer-category result only through exact extraction, never through constant.Float64Val, and every conversion to an integer kind is followed by a convert-back-and-compare overflow / truncation check; K1 every path of every function of base/untyped that uses constant.Int64Val / Uint64Val is enumerated (exact flag and target category concretely) and the first result, undefined when the flag is false, never flows into a result of the function on such a path; K2 such a 64-bit result is never narrowed outside a two-sided range check; F1 a constant converted to *big.Int / *big.Rat / *big.Float is copied into a fresh local at each execution and the compile-time value never escapes the closure. " +
-			"K7 real() and imag() of an untyped constant are built with the constant kind untyped.Float, not a kind computed from the value (found F57). K2 also: an exact 64-bit value (Int64Val, Uint64Val, Lit.Int64, Lit.Uint64) changes signedness only inside a range check; K8 no *big.Float of a constant gets a hand-set precision or rounding mode. Not decided: go/constant's arithmetic, precision beyond what go/constant keeps, exactness of *big.Float conversions.",
+			"K7 real() and imag() of an untyped constant are built with the constant kind untyped.Float, not a kind computed from the value (found F57). K2 also: an exact 64-bit value (Int64Val, Uint64Val, Lit.Int64, Lit.Uint64) changes signedness only inside a range check; K8 no *big.Float of a constant gets a hand-set precision or rounding mode. A2u an Int/Uint/Float/Complex/Bool accessor applied directly to the Value of a constant sits under a kind or category test about that constant (found F58: 1 << int(3) crashed). Not decided: go/constant's arithmetic, precision beyond what go/constant keeps, exactness of *big.Float conversions.",
 		Assumptions: []string{"go/constant implements exact constant arithmetic"},
 		Rules: []func(*Ctx){func(c *Ctx) {
 			ruleUntypedOperators(c, "P1-operator-passthrough")
@@ -825,8 +825,10 @@ func init() {
 			ruleUnaryKeepsKind(c, "K5-unary-keeps-kind")
 			ruleConstRepetitionPairing(c, "K6-const-repetition-pairing")
 			ruleRealImagUntypedKind(c, "K7-real-imag-untyped-kind")
+			ruleConstantAccessorGuard(c, "A2u-constant-accessor-guard", "fast")
 		}},
 		Mutants: []Mutant{
+			{Name: "typed-shift-count-read-as-unsigned", File: "fast/binary.go", Old: "\t\t\tcase xr.Int:\n\t\t\t\tif yv.Int() < 0 {\n\t\t\t\t\tc.Errorf(\"invalid negative shift count: %v\", node)\n\t\t\t\t}\n\t\t\t\tycount = constant.MakeInt64(yv.Int())\n\t\t\tcase xr.Uint:\n\t\t\t\tycount = constant.MakeUint64(yv.Uint())\n\t\t\tdefault:\n\t\t\t\treturn c.invalidBinaryExpr(node, xe, ye)\n\t\t\t}", New: "\t\t\tdefault:\n\t\t\t\tycount = constant.MakeUint64(xr.ValueOf(ye.Value).Uint())\n\t\t\t}"},
 			{Name: "bigint-uint64-through-int64", File: "base/untyped/lit.go", Old: "ret = b.SetUint64(n)", New: "ret = b.SetInt64(int64(n))"},
 			{Name: "bigfloat-precision-capped", File: "base/untyped/lit.go", Old: "ret = b.SetRat(r)", New: "ret = b.SetPrec(512).SetRat(r)"},
 			{Name: "real-of-untyped-takes-representation-kind", File: "fast/builtin.go", Old: "arg = untyped.MakeLit(untyped.Float, constant.ToFloat(val), &c.Universe.BasicTypes)", New: "arg = untyped.MakeLit(untyped.MakeKind(val.Kind()), val, &c.Universe.BasicTypes)"},
